@@ -128,6 +128,7 @@ pub struct ProjOpts {
 pub fn project(db: &Database, opts: &ProjOpts) -> Value {
     let mut tabs = Map::new();
     let mut cols = Map::new();
+    let mut ccols = Map::new();
     let mut hx = Map::new();
     let mut keys: Vec<&String> = db.tables.keys().collect();
     keys.sort();
@@ -136,6 +137,9 @@ pub fn project(db: &Database, opts: &ProjOpts) -> Value {
         let name = short(k);
         tabs.insert(name.clone(), Value::Array(t.scan().iter().map(|r| row_to_json(&r.values)).collect()));
         cols.insert(name.clone(), Value::Array(t.schema.columns.iter().map(|c| json!(c.name)).collect()));
+        if let Some(cs) = db.catalog.get_table(k) {
+            ccols.insert(name.clone(), Value::Array(cs.columns.iter().map(|c| json!(c.name)).collect()));
+        }
         if opts.index_contents {
             let mut h = Map::new();
             if let Some(pk) = t.primary_key_index() {
@@ -164,6 +168,7 @@ pub fn project(db: &Database, opts: &ProjOpts) -> Value {
     ixn.sort();
     let mut ix = Vec::new();
     let mut ic = Map::new();
+    let mut ia = Map::new();
     for n in &ixn {
         if let Some(m) = db.get_index(n) {
             ix.push(json!({
@@ -178,7 +183,42 @@ pub fn project(db: &Database, opts: &ProjOpts) -> Value {
             }));
         }
         if opts.index_contents {
-            if let Some(d) = db.get_index_data(n) {
+            if let (Some(d), Some(m)) = (db.get_index_data(n), db.get_index(n)) {
+                if let vibesql_storage::database::IndexData::DiskBacked { .. } = d {
+                    // the disk-backed B+ tree cannot be iterated by key: look every key of the current rows up
+                    // (prefix-truncated as the definition says) and log all stored row ids for the stale-entry check
+                    if let Some(t) = db.get_table(&m.table_name) {
+                        let mut seen = std::collections::BTreeMap::new();
+                        for r in t.scan() {
+                            let key: Vec<vibesql_types::SqlValue> = m
+                                .columns
+                                .iter()
+                                .map(|c| {
+                                    let v = t.schema.get_column_index(&c.column_name).map(|i| r.values[i].clone()).unwrap_or(vibesql_types::SqlValue::Null);
+                                    match (&v, c.prefix_length) {
+                                        (vibesql_types::SqlValue::Varchar(sv), Some(pl)) => vibesql_types::SqlValue::Varchar(sv.chars().take(pl as usize).collect()),
+                                        (vibesql_types::SqlValue::Character(sv), Some(pl)) => vibesql_types::SqlValue::Character(sv.chars().take(pl as usize).collect()),
+                                        // index keys hold numbers in their canonical (f64) form
+                                        (vibesql_types::SqlValue::Integer(x), _) | (vibesql_types::SqlValue::Bigint(x), _) => vibesql_types::SqlValue::Double(*x as f64),
+                                        (vibesql_types::SqlValue::Smallint(x), _) => vibesql_types::SqlValue::Double(*x as f64),
+                                        _ => v,
+                                    }
+                                })
+                                .collect();
+                            let kj = Value::Array(key.iter().map(val_to_json).collect());
+                            seen.entry(kj.to_string()).or_insert_with(|| {
+                                let mut p = d.get(&key).unwrap_or_default();
+                                p.sort();
+                                json!([kj, p])
+                            });
+                        }
+                        ic.insert(n.to_uppercase(), Value::Array(seen.into_values().collect()));
+                        let mut all: Vec<usize> = d.values().flatten().collect();
+                        all.sort();
+                        ia.insert(n.to_uppercase(), json!(all));
+                    }
+                    continue;
+                }
                 let mut ents: Vec<Value> = d
                     .iter()
                     .map(|(k, p)| {
@@ -199,6 +239,7 @@ pub fn project(db: &Database, opts: &ProjOpts) -> Value {
     let mut st = json!({
         "T": Value::Object(tabs),
         "C": Value::Object(cols),
+        "CC": Value::Object(ccols),
         "tn": tn,
         "ix": ix,
         "vw": vw,
@@ -208,6 +249,7 @@ pub fn project(db: &Database, opts: &ProjOpts) -> Value {
     if opts.index_contents {
         st["hx"] = Value::Object(hx);
         st["ic"] = Value::Object(ic);
+        st["ia"] = Value::Object(ia);
     }
     st
 }
@@ -221,12 +263,90 @@ pub struct Config {
     /// memory budget for user indexes in bytes (0 = default Database::new())
     pub index_budget: usize,
     pub index_contents: bool,
+    /// execute every query a second time and log that result as rows2 / dg2 (repeatability, C04)
+    pub twice: bool,
+    /// log canonical digests of query results (dg: n, seq, bag); results with more rows than this are logged as digests only
+    pub digest_above: Option<usize>,
+    /// do not project the database state (large-scale scenarios; they are compared across configurations only)
+    pub no_state: bool,
+    /// give every database its own directory (needed whenever indexes may be disk-backed)
+    pub own_dir: bool,
 }
 
 impl Default for Config {
     fn default() -> Self {
-        Config { name: "default".into(), elide_index: false, index_budget: 0, index_contents: false }
+        Config {
+            name: "default".into(),
+            elide_index: false,
+            index_budget: 0,
+            index_contents: false,
+            twice: false,
+            digest_above: None,
+            no_state: false,
+            own_dir: false,
+        }
     }
+}
+
+/// FNV-1a over the canonical JSON text: the harness only canonicalises, the comparison is made by the trace spec.
+fn fnv(parts: &[String]) -> String {
+    let mut h: u64 = 0xcbf29ce484222325;
+    for p in parts {
+        for b in p.as_bytes() {
+            h ^= *b as u64;
+            h = h.wrapping_mul(0x100000001b3);
+        }
+        h ^= 0xff;
+        h = h.wrapping_mul(0x100000001b3);
+    }
+    format!("{:016x}", h)
+}
+
+pub fn digest(rows: &[vibesql_storage::Row]) -> Value {
+    let texts: Vec<String> = rows.iter().map(|r| row_to_json(&r.values).to_string()).collect();
+    let seq = fnv(&texts);
+    let mut sorted = texts.clone();
+    sorted.sort();
+    json!({"n": rows.len(), "seq": seq, "bag": fnv(&sorted)})
+}
+
+/// Deterministic bulk rows for the large-scale scenarios: {"a":"load","t":..,"n":..,"seed":..,"cols":[{"kind":"seq"|"int"|"str","mod":m,"nullp":p}]}
+pub fn load_sql(a: &Value) -> Vec<String> {
+    let n = a["n"].as_u64().unwrap_or(0);
+    let mut x: u64 = a["seed"].as_u64().unwrap_or(1).wrapping_mul(0x9E3779B97F4A7C15) | 1;
+    let mut next = move || {
+        x ^= x << 13;
+        x ^= x >> 7;
+        x ^= x << 17;
+        x
+    };
+    let cols = a["cols"].as_array().cloned().unwrap_or_default();
+    let mut stmts = Vec::new();
+    let mut cur: Vec<String> = Vec::new();
+    for i in 0..n {
+        let vals: Vec<String> = cols
+            .iter()
+            .map(|c| {
+                let m = c["mod"].as_u64().unwrap_or(10).max(1);
+                let nullp = c["nullp"].as_u64().unwrap_or(0);
+                let r = next();
+                if nullp > 0 && (r >> 40) % 100 < nullp {
+                    return "NULL".to_string();
+                }
+                match c["kind"].as_str().unwrap_or("int") {
+                    "seq" => (i + 1).to_string(),
+                    "str" => format!("'s{}'", r % m),
+                    _ => (r % m).to_string(),
+                }
+            })
+            .collect();
+        cur.push(format!("({})", vals.join(", ")));
+        if cur.len() == 500 || i + 1 == n {
+            stmts.push(format!("INSERT INTO {} VALUES {}", a["t"].as_str().unwrap_or(""), cur.join(", ")));
+            cur.clear();
+        }
+    }
+    stmts
 }
 
 pub struct Engine {
@@ -242,6 +362,12 @@ pub fn fresh_db(cfg: &Config) -> (Database, Option<tempfile::TempDir>) {
         c.memory_budget = cfg.index_budget;
         c.spill_policy = vibesql_storage::database::SpillPolicy::SpillToDisk;
         let db = Database::with_path_and_config(dir.path().to_path_buf(), c);
+        (db, Some(dir))
+    } else if cfg.own_dir {
+        // disk-backed indexes of a Database without a path all live in one shared temp directory
+        // (<tmp>/vibesql_indexes/<table>_<index>.idx): give every database its own directory
+        let dir = tempfile::tempdir().expect("tempdir");
+        let db = Database::with_path(dir.path().to_path_buf());
         (db, Some(dir))
     } else {
         (Database::new(), None)
@@ -291,13 +417,56 @@ impl Engine {
                 self.db.set_role(if r.is_empty() { None } else { Some(r.to_string()) });
                 Outcome::ok(0)
             }
+            "load" => {
+                let stmts = load_sql(a);
+                sql = format!("-- load {} rows into {} ({} statements)", a["n"], a["t"].as_str().unwrap_or(""), stmts.len());
+                let mut total = 0i64;
+                let mut res = Outcome::ok(0);
+                for s in &stmts {
+                    let o = exec_sql(&mut self.db, s);
+                    if o.out != "ok" {
+                        res = o;
+                        break;
+                    }
+                    total += o.cnt;
+                }
+                if res.out == "ok" {
+                    res.cnt = total;
+                }
+                res
+            }
             _ => exec_sql(&mut self.db, &sql),
         };
-        let st = project(&self.db, &ProjOpts { index_contents: self.cfg.index_contents });
-        let rows = match &o.rows {
-            Some(rs) => Value::Array(rs.iter().map(|r| row_to_json(&r.values)).collect()),
-            None => json!([]),
+        let st = if self.cfg.no_state {
+            json!({})
+        } else {
+            project(&self.db, &ProjOpts { index_contents: self.cfg.index_contents })
         };
+        let big = |n: usize| self.cfg.digest_above.map_or(false, |lim| n > lim);
+        let rows = match &o.rows {
+            Some(rs) if !big(rs.len()) => Value::Array(rs.iter().map(|r| row_to_json(&r.values)).collect()),
+            _ => json!([]),
+        };
+        let mut extra = Map::new();
+        if let (Some(_), Some(rs)) = (self.cfg.digest_above, &o.rows) {
+            extra.insert("dg".into(), digest(rs));
+        }
+        if self.cfg.twice && (kind == "q" || kind == "cq") && o.out != "panic" {
+            let o2 = exec_sql(&mut self.db, &sql);
+            extra.insert("out2".into(), json!(o2.out));
+            if let Some(rs) = &o2.rows {
+                if !big(rs.len()) {
+                    extra.insert("rows2".into(), Value::Array(rs.iter().map(|r| row_to_json(&r.values)).collect()));
+                } else {
+                    extra.insert("rows2".into(), json!([]));
+                }
+                if self.cfg.digest_above.is_some() {
+                    extra.insert("dg2".into(), digest(rs));
+                }
+            } else {
+                extra.insert("rows2".into(), json!([]));
+            }
+        }
         let mut msg = o.msg.clone();
         if msg.len() > 160 {
             let mut cut = 160;
@@ -306,6 +475,10 @@ impl Engine {
             }
             msg.truncate(cut);
         }
-        json!({"a": a, "sql": sql, "out": o.out, "cnt": o.cnt, "rows": rows, "msg": msg, "st": st, "cfg": self.cfg.name})
+        let mut ev = json!({"a": a, "sql": sql, "out": o.out, "cnt": o.cnt, "rows": rows, "msg": msg, "st": st, "cfg": self.cfg.name});
+        for (k, v) in extra {
+            ev[k] = v;
+        }
+        ev
     }
 }
